@@ -79,6 +79,11 @@ def run(item, ctx, tier, seed):
             nontriv = both and (anytie or ep + en > 0 or cfg != ("pos", "pos"))
             m0 = s.cm(Tarr).matrix
             ctx.outcome((cfg, ep, en, m0.tobytes()))
+            if item["grid"] == "irregular" and (ep, en) == tuple(b["easy"][0]) and both:
+                from mc.derived import check_input_independence
+
+                check_input_independence(ctx, case, pos, neg, dict(nb_easy_pos=ep, nb_easy_neg=en, score_class=sc, equal_class=ec),
+                                         lambda o: (o.cm(Tarr).matrix, o.threshold_at_fnr(np.array([0.0, 0.3, 1.0])), o.swap().cm(Tarr).matrix))
             # ------------------------------------------------------------ swap
             ok, sw = guarded(ctx, "swap", case, s.swap)
             if ok:
